@@ -630,57 +630,118 @@ def pushTrace (ups : List UpScript) (sched : List Nat) (man : List Resp) : Optio
 
 /-! ## Push (legacy, `server.PushModel`): strictly sequential -/
 
-/-- the registry's answers for one layer: HEAD (present / absent / error), POST, then the
-    successive answers to PATCH tries and to commit-PUT tries (`true` = success; missing
-    answers count as success) -/
+/-- the registry's answers for one layer: to the HEAD exchange, to the POST exchange that opens
+    the upload, and to each try of the PATCH (one part: files below 100 MB) and of the commit PUT
+    (every try is an exchange of its own; missing answers are `200`, and a missing `Location`
+    where the code needs one is supplied by the scripted registry only if `loc` says so) -/
 structure LegacyLayer where
-  head : Nat            -- 0 present (200), 1 absent (404), 2 error
-  post : Bool
-  patch : List Bool
-  commit : List Bool
+  head : List Resp
+  post : List Resp
+  patch : List (List Resp)
+  commit : List (List Resp)
 deriving Repr
 
 inductive LegEv where
-  | head (layer : Nat) (res : Nat)
-  | post (layer : Nat) (ok : Bool)
-  | patch (layer : Nat) (ok : Bool)
-  | commit (layer : Nat) (ok : Bool)
-  | manifest
+  /-- a request for layer `layer` reached the registry; `kind`: 0 HEAD exchange, 1 POST exchange,
+      2 a PATCH try, 3 a commit try -/
+  | req (layer : Nat) (kind : Nat) (m : Method) (status : Nat)
+  | man (m : Method) (status : Nat)
 deriving DecidableEq, Repr
 
-/-- up to `fuel` tries, each answered by the next scripted outcome; returns the events and
-    whether a try succeeded -/
-def tries (mk : Bool → LegEv) : Nat → List Bool → List LegEv × Bool
-  | 0, _ => ([], false)
-  | _+1, [] => ([mk true], true)
-  | n+1, b :: bs =>
-    if b then ([mk true], true)
-    else
-      let r := tries mk n bs
-      (mk false :: r.1, r.2)
+def LegEv.isManifest : LegEv → Bool
+  | .man _ _ => true
+  | _ => false
+
+/-- `makeRequestWithRetry` on the final response of an exchange (401 is not scripted: it starts
+    the token dance): 404 → `os.ErrNotExist`; ≥ 400 → error; EVERYTHING ELSE is returned as a
+    success — also 1xx and 3xx answers net/http did not follow.  `strict` is the repaired variant:
+    only 2xx is a success. -/
+inductive Mrr where
+  | ok (r : Resp)
+  | notFound
+  | err
+deriving Repr
+
+def mrr (strict : Bool) : Option Resp → Mrr
+  | none => .err
+  | some r =>
+    if r.status = 404 then .notFound
+    else if r.status ≥ 400 then .err
+    else if strict && !is2xx r.status then .err
+    else .ok r
 
 def maxRetries : Nat := 6
 
-/-- `uploadBlob` for one layer (single part: files below 100 MB) -/
-def legacyLayer (i : Nat) (l : LegacyLayer) : List LegEv × Bool :=
-  if l.head = 0 then ([.head i 0], true)
-  else if l.head ≠ 1 then ([.head i l.head], false)
-  else if !l.post then ([.head i 1, .post i false], false)
-  else
-    let p := tries (.patch i) maxRetries l.patch
-    if !p.2 then (.head i 1 :: .post i true :: p.1, false)
+/-- up to `fuel` tries of one request kind; every try is an exchange answered by the next script;
+    returns the requests and the final response of the first try that `okF` accepts -/
+def triesX (i kind : Nat) (m : Method) (b : BodyKind) (okF : Option Resp → Bool) :
+    Nat → List (List Resp) → List LegEv × Option Resp
+  | 0, _ => ([], none)
+  | n + 1, scripts =>
+    let x := exchange m b (scripts.headD [])
+    let evs := x.1.map fun (p : Method × Nat) => LegEv.req i kind p.1 p.2
+    if okF x.2 then (evs, x.2)
     else
-      let c := tries (.commit i) maxRetries l.commit
-      (.head i 1 :: .post i true :: (p.1 ++ c.1), c.2)
+      let r := triesX i kind m b okF n scripts.tail
+      (evs ++ r.1, r.2)
 
-/-- `PushModel`: layers in order, stop at the first failure, manifest PUT last -/
-def legacyPush : Nat → List LegacyLayer → List LegEv × Bool
-  | _, [] => ([.manifest], true)
+/-- `uploadPart` on the final response of a PATCH try (body: a TeeReader, not re-sendable): an
+    error for ≥ 400; 307 starts the redirected upload, which is not scripted here (counted as a
+    failed try); every other status — also 1xx/3xx — counts as "part uploaded" -/
+def patchOk (strict : Bool) : Option Resp → Bool
+  | none => false
+  | some r => decide (r.status < 400) && r.status != 307 && (!strict || is2xx r.status)
+
+def commitOk (strict : Bool) (x : Option Resp) : Bool :=
+  match mrr strict x with
+  | .ok _ => true
+  | _ => false
+
+/-- `uploadBlob` for one layer: HEAD (a "success" means the registry has the blob), else POST,
+    PATCH tries, commit tries; the next URL is always the `Location` of the previous answer —
+    without one the following request cannot even be sent and the layer fails -/
+def legacyLayer (strict : Bool) (i : Nat) (l : LegacyLayer) : List LegEv × Bool :=
+  let h := exchange .head .none l.head
+  let hev := h.1.map fun (p : Method × Nat) => LegEv.req i 0 p.1 p.2
+  match mrr strict h.2 with
+  | .ok _ => (hev, true)
+  | .err => (hev, false)
+  | .notFound =>
+    let p := exchange .post .none l.post
+    let pev := p.1.map fun (q : Method × Nat) => LegEv.req i 1 q.1 q.2
+    match mrr strict p.2 with
+    | .ok r =>
+      if !r.loc then (hev ++ pev, false)
+      else
+        let a := triesX i 2 .patch .stream (patchOk strict) maxRetries l.patch
+        match a.2 with
+        | none => (hev ++ pev ++ a.1, false)
+        | some ra =>
+          if !ra.loc then (hev ++ pev ++ a.1, false)
+          else
+            let c := triesX i 3 .put .none (commitOk strict) maxRetries l.commit
+            (hev ++ pev ++ a.1 ++ c.1, c.2.isSome)
+    | _ => (hev ++ pev, false)
+
+/-- layers in order, stop at the first failure -/
+def legacyLayers (strict : Bool) : Nat → List LegacyLayer → List LegEv × Bool
+  | _, [] => ([], true)
   | i, l :: ls =>
-    let r := legacyLayer i l
+    let r := legacyLayer strict i l
     if r.2 then
-      let rest := legacyPush (i + 1) ls
+      let rest := legacyLayers strict (i + 1) ls
       (r.1 ++ rest.1, rest.2)
     else (r.1, false)
+
+/-- the manifest PUT (`makeRequestWithRetry`, body `bytes.Reader`) -/
+def legacyManifest (strict : Bool) (man : List Resp) : List LegEv × Bool :=
+  let x := exchange .put .rewindable man
+  (x.1.map (fun (p : Method × Nat) => LegEv.man p.1 p.2), commitOk strict x.2)
+
+/-- `PushModel`: the request log and whether it returns nil -/
+def legacyPush (strict : Bool) (ls : List LegacyLayer) (man : List Resp) : List LegEv × Bool :=
+  let r := legacyLayers strict 0 ls
+  if r.2 then ((r.1 ++ (legacyManifest strict man).1), (legacyManifest strict man).2)
+  else (r.1, false)
 
 end OllamaVerif.Registry
